@@ -57,7 +57,24 @@ def run(spec, out):
     from vmon import boot
 
     modules = spec.get("modules", "all")
-    b = boot.boot(modules=modules, order=spec.get("order"))
+    # between two imports a program already uses what it has: every prefix + symbol spelling that
+    # resolves now is looked up, so that a later module declaring exactly that symbol ('hh' hand after
+    # hecto-hour, 'cd' candela after centi-day...) meets a process in which it was resolved before
+    early = {}
+
+    def between(name):
+        if not spec.get("lookups_between_imports"):
+            return
+        for text in ("hh", "cd", "Pa", "ha", "min.", "nmi.", "TR", "Mm", "ft.", "pt.", "dB", "mi.", "Gi", "kn", "au", "at", "Th", "Eh", "PS", "ch.", "yd."):
+            if text in early:
+                continue
+            try:
+                early[text] = Unit.resolve_symbol(text) if rng.random() < 0.5 else Unit.parse(text)
+                count("symbols_resolved_before_declaration/between-imports")
+            except Exception:
+                pass
+
+    b = boot.boot(modules=modules, order=spec.get("order"), between=between)
     Prefix.__init__ = orig_pinit
     b.recording = False
     if b.errors:
@@ -154,9 +171,19 @@ def run(spec, out):
         for n, u in Unit._by_name.items():
             if n not in getattr(u, "names", ()):
                 violation("C19:registry-name-not-reported-by-unit", f"{tag}: Unit._by_name[{n!r}] = {u!r} which reports {getattr(u, 'names', None)}")
-        for s, u in Unit._by_symbol.items():
+        for s, u in list(Unit._by_symbol.items()):
             if s not in getattr(u, "symbols", ()):
                 violation("C19:registry-symbol-not-reported-by-unit", f"{tag}: Unit._by_symbol[{s!r}]")
+            try:
+                got = Unit.resolve_symbol(s)
+            except Exception as e:
+                got = e
+            count("symbol_lookups_in_sweeps")
+            if got is not u:
+                violation("C19:declared-symbol-resolves-elsewhere", f"{tag}: Unit.resolve_symbol({s!r}) gives {got!r}, the registry says {u!r}")
+        for n, u in list(Unit._by_name.items()):
+            if Unit.named(n) is not u:
+                violation("C19:declared-name-resolves-elsewhere", f"{tag}: Unit.named({n!r})")
         pn, ps = {}, {}
         for p in list(Prefix._known.values()):
             if not getattr(p, "_initialized", False):
@@ -194,6 +221,40 @@ def run(spec, out):
     def fresh(tag="zq"):
         uid[0] += 1
         return f"{tag}{spec['seed']}x{uid[0]}"
+
+    def alpha(k):
+        out = ""
+        while True:
+            out = "abcdefghijklmnopqrstuvwxyz"[k % 26] + out
+            k //= 26
+            if not k:
+                return out
+
+    def fresh_alpha(tag="zq"):
+        """a fresh symbol made of letters only, so that it also goes through the quantity parser"""
+        uid[0] += 1
+        return f"{tag}{alpha(spec['seed'])}Z{alpha(uid[0])}"
+
+    def symbol_for_declaration():
+        """a symbol for a new declaration: fresh, or - the history-dependent case - one that the library
+        already *resolved* earlier in this process as prefix + symbol of another unit (nothing is declared
+        under it yet, so the declaration is valid and must win every later lookup)"""
+        named = [u for u in my_units if u.symbols and u.symbols[0].isalpha()]
+        if named and rng.random() < 0.4:
+            base = rng.choice(named)
+            pfx = rng.choice(sorted((p for p in Prefix._by_symbol.values() if p.symbol and p.symbol.isalpha()), key=lambda p: p.symbol))
+            text = pfx.symbol + base.symbols[0]
+            if text not in Unit._by_symbol and text not in Unit._by_name:
+                how = rng.choice(["resolve_symbol", "Unit.parse", "Quantity.parse"])
+                try:
+                    got = (Unit.resolve_symbol(text) if how == "resolve_symbol" else Unit.parse(text) if how == "Unit.parse"
+                           else measured.Quantity.parse("2 " + text).unit)
+                except Exception:
+                    got = None
+                if got is pfx * base:
+                    count(f"symbols_resolved_before_declaration/{how}")
+                    return text, "symbol-resolved-earlier"
+        return fresh_alpha("zqs"), "fresh"
 
     dims = [measured.Length, measured.Time, measured.Mass, measured.Energy, measured.Speed, measured.Frequency, measured.Temperature]
     unit_names = sorted(Unit._by_name)
@@ -248,6 +309,14 @@ def run(spec, out):
                     return f"resolve_symbol({symbol!r}) gives {got!r}"
                 if symbol not in u.symbols:
                     return f"unit does not report symbol {symbol!r}"
+                if symbol.isalpha():
+                    # the lookups users actually make: the parser
+                    try:
+                        got = (Unit.parse(symbol), measured.Quantity.parse("3 " + symbol).unit)
+                    except Exception as e:
+                        return f"parsing the declared symbol {symbol!r} raised {type(e).__name__}: {e}"
+                    if got[0] is not u or got[1] is not u:
+                        return f"Unit.parse({symbol!r}) gives {got[0]!r}, Quantity.parse gives {got[1]!r}"
             return None
         return check
 
@@ -256,13 +325,15 @@ def run(spec, out):
         r = rng.random()
         d = rng.choice(dims)
         if r < 0.12:
-            n, s = fresh("zqn"), fresh("zqs")
-            u = expect_ok("Unit.define", "fresh", lambda: Unit.define(d, n, s), lambda u: unit_bound(u, n, s)(u) if u is not None else "no unit")
+            n = fresh("zqn")
+            s, state = symbol_for_declaration()
+            u = expect_ok("Unit.define", state, lambda: Unit.define(d, n, s), lambda u: unit_bound(u, n, s)(u) if u is not None else "no unit")
             if u is not None:
                 my_units.append(u)
         elif r < 0.2:
-            n, s = fresh("zqn"), fresh("zqs")
-            u = expect_ok("Dimension.unit", "fresh", lambda: d.unit(n, s), lambda u: unit_bound(u, n, s)(u))
+            n = fresh("zqn")
+            s, state = symbol_for_declaration()
+            u = expect_ok("Dimension.unit", state, lambda: d.unit(n, s), lambda u: unit_bound(u, n, s)(u))
             if u is not None:
                 my_units.append(u)
         elif r < 0.32 and my_units:
@@ -272,16 +343,20 @@ def run(spec, out):
             anon = a**e * c if rng.random() < 0.5 else a**e / (c if c is not a else measured.One)
             if anon.names or anon is measured.One:
                 continue
-            n, s = fresh("zqd"), fresh("zqS")
+            n = fresh("zqd")
+            s, state = symbol_for_declaration()
+            state = "anonymous-first" + ("+" + state if state != "fresh" else "")
             if rng.random() < 0.5:
-                expect_ok("Unit.derive", "anonymous-first", lambda: Unit.derive(anon, n, s), unit_bound(anon, n, s))
+                expect_ok("Unit.derive", state, lambda: Unit.derive(anon, n, s), unit_bound(anon, n, s))
             else:
-                expect_ok("Unit.alias", "anonymous-first", lambda: anon.alias(name=n, symbol=s), unit_bound(anon, n, s))
+                expect_ok("Unit.alias", state, lambda: anon.alias(name=n, symbol=s), unit_bound(anon, n, s))
         elif r < 0.4 and my_units:
             # a second name for an already named unit
             u = rng.choice(my_units)
-            n, s = fresh("zqa"), fresh("zqA")
-            expect_ok("Unit.alias", "already-named", lambda: u.alias(name=n, symbol=s), unit_bound(u, n, s))
+            n = fresh("zqa")
+            s, state = symbol_for_declaration()
+            state = "already-named" + ("+" + state if state != "fresh" else "")
+            expect_ok("Unit.alias", state, lambda: u.alias(name=n, symbol=s), unit_bound(u, n, s))
         elif r < 0.5:
             # prefix: anonymous first (through arithmetic or the bare constructor), then named
             base = rng.choice([3, 5, 7])
